@@ -808,6 +808,97 @@ theorem pred_expr_sound_partial {α : Type} (I : Interp α) (ss : List St) (dv :
       · simp only [hy, ↓reduceIte, false_or]
         exact ih
 
+/-! ## numeric evaluators: the `parameters` mapping -/
+
+/-- **An evaluator is `eval` under the environment its mapping denotes**: substituting the
+    mapping and evaluating is evaluating with every parameter NAME the mapping mentions bound
+    to the mapping's value at that name. -/
+theorem evaluator_is_eval_under_mapping {α : Type} (I : Interp α) (ρ : Env α) (m : PMap) (e : Expr) :
+    eval I ρ (evalWith m e) = eval I (overlay I ρ m) e := by
+  unfold evalWith substE overlay
+  rw [Expr.eval_subst]
+  congr 1
+  funext y
+  rw [PMap.toSub_get]
+  cases m.value y <;> rfl
+
+/-- **Key-form invariance** (the obligation K checks on the real evaluators): the result depends
+    on the mapping only through its value at each parameter name — whether the keys are strings,
+    sympy symbols or pharmpy `Expr` symbols, and in which order, is irrelevant. -/
+theorem evaluator_key_form_invariant {α : Type} (I : Interp α) (ρ : Env α) (m₁ m₂ : PMap)
+    (h : ∀ n, m₁.value n = m₂.value n) (e : Expr) :
+    eval I ρ (evalWith m₁ e) = eval I ρ (evalWith m₂ e) := by
+  rw [evaluator_is_eval_under_mapping, evaluator_is_eval_under_mapping]
+  congr 1
+  funext y
+  simp [overlay, h y]
+
+/-- **evaluate_population_prediction / evaluate_individual_prediction equal direct evaluation**
+    (DV defined once): the value is the DV after executing the statements in the environment
+    where the mapped parameters have the mapped values and the listed random variables are 0. -/
+theorem evaluate_prediction_sound_partial {α : Type} (I : Interp α) (ss : List St) (dv : Sym)
+    (zero : List Sym) (m : PMap) (r : Expr) (hsafe : obsSafe ss dv = true)
+    (h : evaluatePred ss dv zero m = some r) (ρ : Env α) :
+    eval I ρ r = run I ss (fun y => if y ∈ zero then I.lit 0 else overlay I ρ m y) dv := by
+  unfold evaluatePred at h
+  cases hp : predExpr ss dv zero with
+  | none => simp [hp] at h
+  | some r0 =>
+    simp only [hp, Option.map_some, Option.some.injEq] at h
+    subst h
+    rw [evaluator_is_eval_under_mapping]
+    exact pred_expr_sound_partial I ss dv zero r0 hsafe hp _
+
+/-- **evaluate_expression equals direct evaluation** of the expression after the statements,
+    in the environment the mapping denotes. -/
+theorem evaluate_expression_sound {α : Type} (I : Interp α) (ss : List St) (e r : Expr) (m : PMap)
+    (h : evaluateExpression ss e m = some r) (ρ : Env α) :
+    eval I ρ r = eval I (run I ss (overlay I ρ m)) e := by
+  unfold evaluateExpression at h
+  cases hp : expandBack ss e with
+  | none => simp [hp] at h
+  | some r0 =>
+    simp only [hp, Option.map_some, Option.some.injEq] at h
+    subst h
+    rw [evaluator_is_eval_under_mapping]
+    exact expandBack_sound I ss e r0 _ hp
+
+/-- **`{**inits, **given}` is "given over inits" by name — when `given` is keyed by strings**. -/
+theorem merged_mapping_str_keys (inits : List (Sym × Expr)) (given : PMap)
+    (hs : ∀ p ∈ given, p.1.isStr = true) (n : Sym) :
+    (mergedMapping inits (some given)).value n =
+      match given.value n with
+      | some v => some v
+      | none => (initsMap inits).value n := by
+  simp only [mergedMapping, pyMerge]
+  rw [PMap.value_append, merged_base_value, PMap.atKey_str given hs]
+  cases hb : (initsMap inits).value n with
+  | some v0 => cases hg : given.value n <;> simp
+  | none =>
+    simp only
+    rw [merged_rest_value inits given hs n hb]
+    cases hg : given.value n <;> simp
+
+/-- **A symbol-keyed mapping is lost in the merge** (evaluate_expression as it is): the merged
+    mapping keeps the initial estimate in front of the caller's entry for the same name, and
+    `subs` lets the first entry win. -/
+theorem merged_mapping_symbol_keys_witness :
+    let inits : List (Sym × Expr) := [("TH", .lit 1)]
+    (mergedMapping inits (some [(Key.str "TH", .lit 5)])).value "TH" = some (.lit 5) ∧
+    (mergedMapping inits (some [(Key.symbol "TH", .lit 5)])).value "TH" = some (.lit 1) ∧
+    (mergedMapping inits (some [(Key.expr "TH", .lit 5)])).value "TH" = some (.lit 1) ∧
+    (directMapping inits (some [(Key.symbol "TH", .lit 5)])).value "TH" = some (.lit 5) ∧
+    eval IZ (fun _ => 0) (evalWith (mergedMapping inits (some [(Key.symbol "TH", .lit 5)]))
+      (.f2 "add" (.sym "TH") (.sym "W"))) = 1 := by
+  decide
+
+-- non-vacuity: str-, symbol- and Expr-keyed mappings in different orders denote the same values
+example : ∀ n, PMap.value [(Key.str "A", Expr.lit 2), (Key.symbol "B", Expr.lit 3)] n
+    = PMap.value [(Key.expr "B", Expr.lit 3), (Key.symbol "A", Expr.lit 2)] n := by
+  intro n
+  simp only [PMap.value, Key.name]
+  by_cases ha : n = "A" <;> by_cases hb : n = "B" <;> simp_all
+
 /-! ## relation to the shared statement type -/
 
 /-- C07's statements extend the shared core: on embedded core statements `run` agrees. -/
